@@ -904,7 +904,7 @@ Section Descent.
         match se_node x with
         | NTrav _ steps _ =>
             match rev steps with
-            | TSIdxOther _ :: _ :: _ => rec (CAny TStr false) CEmpty
+            | TSIdxUnknown _ :: _ :: _ => rec (CAny TStr false) CEmpty   (* !idx.Key.IsKnown(): [tags[]]; a null or boolean key is known *)
             | _ => vnil
             end
         | NIndex k => rec (CAny TStr false) (norm k)
